@@ -37,6 +37,12 @@ class Rec(list):
             self('%s:exception:%s' % (key, type(e).__name__), '%s raised %s: %s' % (key, type(e).__name__, e))
             return None
 
+    def ok(self, key, fct, *args, **kwargs):
+        """The same for calls without return value (in-place operations): True if no exception was raised."""
+        n = len(self)
+        self.guard(key, fct, *args, **kwargs)
+        return len(self) == n
+
 
 def start_lists(L):
     subsets = [c for k in range(1, L + 1) for c in itertools.combinations(range(L), k)]
@@ -81,7 +87,7 @@ def check_ops(case):
         rec('max_range:too-small', 'max_range=%r but a term has range %d' % (H.max_range, U.spec_range(spec)))
     if not hc:
         ed = rec.guard('ExactDiag.from_H_mpo', ExactDiag.from_H_mpo, H)
-        if ed is not None and rec.guard('ExactDiag.build_full_H_from_mpo', ed.build_full_H_from_mpo) is None and ed.full_H is not None:
+        if ed is not None and rec.ok('ExactDiag.build_full_H_from_mpo', ed.build_full_H_from_mpo):
             full = ed.full_H.split_legs().to_ndarray().reshape(Hd.shape)
             if not close(full, Hd):
                 rec('denote:ExactDiag', 'ExactDiag.build_full_H_from_mpo differs from the own contraction')
@@ -109,7 +115,7 @@ def check_ops(case):
     # --- dagger, is_hermitian
     Hdag = rec.guard('dagger', H.dagger)
     if Hdag is not None:
-        if rec.guard('dagger:test_sanity', Hdag.test_sanity) is None and not close(D.mpo_dense(Hdag), Hd.conj().T):
+        if rec.ok('dagger:test_sanity', Hdag.test_sanity) and not close(D.mpo_dense(Hdag), Hd.conj().T):
             rec('dagger:dense', 'dagger() is not the conjugate transpose')
         if not hc and not close(D.mpo_dense(Hdag.dagger()), Hd):
             rec('dagger:involution', 'dagger().dagger() differs from the operator')
@@ -134,8 +140,8 @@ def check_ops(case):
                 rec('plus_identity:dense:N=%d' % len(sel), 'plus_identity(%r, %r, sites=%r) is not alpha + beta H' % (alpha, beta, sel))
     # --- in-place transformations on fresh copies
     Hs = U.build(spec)
-    if rec.guard('sort_legcharges', Hs.sort_legcharges) is None:
-        if rec.guard('sort_legcharges:test_sanity', Hs.test_sanity) is None and not close(D.mpo_dense(Hs), Hd):
+    if rec.ok('sort_legcharges', Hs.sort_legcharges):
+        if rec.ok('sort_legcharges:test_sanity', Hs.test_sanity) and not close(D.mpo_dense(Hs), Hd):
             rec('sort_legcharges:dense', 'operator (read between IdL and IdR) changed by sort_legcharges')
         if not all(Hs.get_W(i).get_leg('wL').is_sorted() for i in range(L)):
             rec('sort_legcharges:not-sorted', 'a virtual leg is not sorted afterwards')
@@ -145,7 +151,7 @@ def check_ops(case):
     for n in sorted({2, 3, L} - {1}):
         if n <= L:
             Hg = U.build(spec)
-            if rec.guard('group_sites', Hg.group_sites, n) is None and rec.guard('group_sites:test_sanity', Hg.test_sanity) is None:
+            if rec.ok('group_sites', Hg.group_sites, n) and rec.ok('group_sites:test_sanity', Hg.test_sanity):
                 perm = D.group_perm(Hg.sites)
                 if not close(D.mpo_dense(Hg)[np.ix_(perm, perm)], Hd):
                     rec('group_sites:dense:n=%d' % n, 'operator changed by group_sites(%d)' % n)
@@ -242,7 +248,7 @@ def check_pair(case):
     same_flag = bool(s1.get('plus_hc')) == bool(s2.get('plus_hc'))  # (documented requirement of the sum)
     for name, ref in (('H1+H2', d1 + d2), ('H2+H1', d1 + d2), ('(H1+H2)+H1', 2 * d1 + d2)) if same_flag and not default else ():
         S = rec.guard('add', {'H1+H2': lambda: H1 + H2, 'H2+H1': lambda: H2 + H1, '(H1+H2)+H1': lambda: (H1 + H2) + H1}[name])
-        if S is None or rec.guard('add:test_sanity', S.test_sanity) is not None:
+        if S is None or not rec.ok('add:test_sanity', S.test_sanity):
             continue
         if not close(dense(S), ref):
             rec('add:dense:%s' % ('nested' if name.startswith('(') else 'all_id=%s+%s' % (s1.get('all_id', True), s2.get('all_id', True))),
@@ -253,7 +259,7 @@ def check_pair(case):
             Sd = rec.guard('add:dagger', S.dagger)
             if Sd is not None and not close(dense(Sd), ref.conj().T):
                 rec('add:dagger', 'dagger() of H1+H2 is not the conjugate transpose')
-            if rec.guard('add:sort_legcharges', S.sort_legcharges) is None and not close(dense(S), ref):
+            if rec.ok('add:sort_legcharges', S.sort_legcharges) and not close(dense(S), ref):
                 rec('add:sort_legcharges', 'H1+H2 changed by sort_legcharges')
         if name == 'H1+H2' and fin and not (s1.get('charged') or s1.get('plus_hc')):
             v = U.sector_vectors(s1['chain'], s1['L'], np.random.default_rng(case['seed']), 1)[0]
@@ -360,12 +366,12 @@ def check_apply(case):
     if nv < 1e-9:
         return rec  # (the operator annihilates the state: the normalised result is undefined)
     form = name.split(':')[-1]
-    key = 'apply:%s%s%s' % (method, '' if form in ('B', 'product') else ':psi.form=' + form, ':trunc_params-without-chi_max' if tname == 'default' else '')
+    key = 'apply:%s%s' % (method, ':trunc_params-without-chi_max' if tname == 'default' else '' if form in ('B', 'product') else ':psi.form=' + form)
     if method == 'naive':
-        if rec.guard('apply_naively', H.apply_naively, psi) is None:
+        if rec.ok('apply_naively', H.apply_naively, psi):
             if not close(D.mps_dense(psi, form=None), v, 1e-9):
                 rec('apply_naively:tensors', 'product of the new tensors differs from the dense O|psi>')
-            if rec.guard('apply_naively:canonical_form', psi.canonical_form, renormalize=False) is None and not close(D.mps_dense(psi), v, 1e-9):
+            if rec.ok('apply_naively:canonical_form', psi.canonical_form, renormalize=False) and not close(D.mps_dense(psi), v, 1e-9):
                 rec('apply_naively:canonical_form', 'state after apply_naively + canonical_form differs from the dense O|psi>')
         return rec
     options = dict(compression_method=method, trunc_params=dict(TRUNC[tname]), **case.get('options', {}))
@@ -382,7 +388,7 @@ def check_apply(case):
     if max(psi.chi) > chi_max:
         rec(key + ':chi_max', 'bond dimensions %r exceed chi_max=%d' % (psi.chi, chi_max))
     exact_expected = tname in ('none', 'default')
-    if rec.guard(key + ':test_sanity', psi.test_sanity) is None and exact_expected and float(np.max(psi.norm_test())) > 1e-8:
+    if rec.ok(key + ':test_sanity', psi.test_sanity) and exact_expected and float(np.max(psi.norm_test())) > 1e-8:
         rec(key + ':not-canonical', 'norm_test()=%r after apply' % (psi.norm_test(),))
     fid = abs(np.vdot(phi, v)) ** 2 / (np.vdot(phi, phi).real * nv ** 2)
     if exact_expected and not close(phi, v, 1e-8):
@@ -439,7 +445,7 @@ def check_inf(case):
     sites = [site] * n
     # --- dagger, hermiticity
     Hdag = rec.guard('dagger', H.dagger)
-    if Hdag is not None and rec.guard('dagger:test_sanity', Hdag.test_sanity) is None and not close(D.mpo_window_dense(Hdag, 0, n), ref.conj().T):
+    if Hdag is not None and rec.ok('dagger:test_sanity', Hdag.test_sanity) and not close(D.mpo_window_dense(Hdag, 0, n), ref.conj().T):
         rec('dagger:dense:infinite', 'dagger() is not the conjugate transpose on a window of %d sites' % n)
     w = L + 2 * H.max_range
     dw = ref if w == n else U.spec_dense(spec, w)
@@ -470,7 +476,7 @@ def check_inf(case):
         Hx, n2 = U.build(spec), n + n % 2
         if name == 'group_sites' and L % 2:
             Hx.enlarge_mps_unit_cell(2)
-        if rec.guard(name, getattr(Hx, fct), *args) is not None or rec.guard(name + ':test_sanity', Hx.test_sanity) is not None:
+        if not rec.ok(name, getattr(Hx, fct), *args) or not rec.ok(name + ':test_sanity', Hx.test_sanity):
             continue
         if name == 'group_sites':
             perm = D.group_perm([Hx.sites[i % Hx.L] for i in range(n2 // 2)])
@@ -494,7 +500,7 @@ def check_inf(case):
         Hfin = U.build(fin)
         for approx in ('I', 'II'):
             UU, Ufin = rec.guard('make_U_%s:infinite' % approx, H.make_U, 0.03 + 0.05j, approx), Hfin.make_U(0.03 + 0.05j, approx)
-            if UU is not None and rec.guard('make_U:test_sanity', UU.test_sanity) is None and not close(D.mpo_window_dense(UU, 0, n), D.mpo_dense(Ufin), 1e-9):
+            if UU is not None and rec.ok('make_U:test_sanity', UU.test_sanity) and not close(D.mpo_window_dense(UU, 0, n), D.mpo_dense(Ufin), 1e-9):
                 rec('make_U_%s:infinite:window' % approx, 'U_%s of the infinite MPO restricted to %d sites differs from U_%s of the open chain' % (approx, n, approx))
     return rec
 
@@ -620,7 +626,7 @@ def check_wflat(case):
             if var is not None and not close(var, np.vdot(v, ref @ (ref @ v)) - np.vdot(v, ref @ v) ** 2, 1e-9):
                 rec('variance:W', '%s: got %r' % (name, var))
             w = ref @ D.mps_dense(psi)
-            if rec.guard('apply', H.apply, psi, dict(compression_method='SVD', trunc_params=dict(chi_max=100))) is not None and not close(D.mps_dense(psi), w, 1e-8):
+            if rec.guard('apply:SVD', H.apply, psi, dict(compression_method='SVD', trunc_params=dict(chi_max=100))) is not None and not close(D.mps_dense(psi), w, 1e-8):
                 rec('apply:SVD:no-truncation:not-exact', '%s: W-tensor MPO' % name)
         basis = U.CHAINS[chain][2]
         tl = rec.guard('to_TermList', H.to_TermList, basis)
@@ -628,7 +634,7 @@ def check_wflat(case):
             rec('to_TermList:dense:W', 'sum of the returned terms differs from the operator')
         for name, args in (('sort_legcharges', ()), ('group_sites', (L,))):
             Hx = make()
-            if rec.guard(name, getattr(Hx, name), *args) is None:
+            if rec.ok(name, getattr(Hx, name), *args):
                 perm = D.group_perm(Hx.sites) if name == 'group_sites' else np.arange(len(ref))
                 if not close(D.mpo_dense(Hx)[np.ix_(perm, perm)], ref):
                     rec(name + ':dense:W', 'operator changed by %s' % name)
@@ -647,4 +653,69 @@ def check_wflat(case):
                 e = rec.guard(name, getattr(H, name), psi.copy())
                 if e is not None and not close(e, e_ref, 1e-7):
                     rec('%s:infinite:W' % name, 'unit cells %d (MPO), %d (MPS): got %r, summed reference %r' % (L, Lpsi, e, e_ref))
+    return rec
+
+
+# ------------------------------------------------------------------------------------------------ application, infinite
+
+def applied_local_expvals(Ws, psi, ops):
+    """``<O_j>`` for every site j of the common unit cell in the normalised infinite state ``U|psi>``: dense transfer
+    matrices of the tensors ``M_j = W_j B_j`` and their dominant left / right eigenvectors."""
+    Lc = int(np.lcm(len(Ws), psi.L))
+    Ms = []
+    for i in range(Lc):
+        B = psi.get_B(i, 'B').transpose(['vL', 'p', 'vR']).to_ndarray()
+        M = np.einsum('abpq,cqd->pacbd', Ws[i % len(Ws)], B)
+        Ms.append(M.reshape(M.shape[0], M.shape[1] * M.shape[2], -1))
+
+    def transfer(M, O=None):
+        t = np.einsum('pab,pcd->acbd', M if O is None else np.einsum('pq,qab->pab', O, M), M.conj())
+        return t.reshape(t.shape[0] * t.shape[1], -1)
+
+    Ts = [transfer(M) for M in Ms]
+    E = np.linalg.multi_dot(Ts) if len(Ts) > 1 else Ts[0]
+    w, vr = np.linalg.eig(E)
+    wl, vl = np.linalg.eig(E.T)
+    lam, r, l = w[np.argmax(abs(w))], vr[:, np.argmax(abs(w))], vl[:, np.argmax(abs(wl))]
+    res = []
+    for j in range(Lc):
+        x = r
+        for t in reversed(Ts[:j] + [transfer(Ms[j], ops[j % len(ops)])] + Ts[j + 1:]):
+            x = t @ x
+        res.append(l @ x / (lam * (l @ r)))
+    return np.array(res)
+
+
+def check_infapply(case):
+    """Apply a propagator MPO to an infinite MPS; compare local expectation values with the dense transfer matrix."""
+    rec = Rec()
+    spec, method = case['spec'], case['method']
+    chain = spec['chain']
+    site = U.site_of(chain)
+    zname = {'S:Sz': 'Sz', 'S1:Sz': 'Sz', 'S:None': 'Sigmaz', 'F:N': 'N'}[chain]
+    H = U.build(spec)
+    if case.get('enlarge'):
+        H.enlarge_mps_unit_cell(case['enlarge'])
+    UU = rec.guard('make_U', H.make_U, U.cc(case['t']), case['approx'])
+    if UU is None:
+        return rec
+    psi = U.infinite_state(chain, H.L, np.random.default_rng(case['seed']), chi_max=4)
+    Ws = [UU.get_W(i).transpose(['wL', 'wR', 'p', 'p*']).to_ndarray() for i in range(UU.L)]
+    ref = applied_local_expvals(Ws, psi, [D.op_dense(site, zname)])
+    key = 'apply:%s:infinite' % method
+    if method == 'naive':
+        if not rec.ok('apply_naively:infinite', UU.apply_naively, psi) or not rec.ok('apply_naively:infinite:canonical_form', psi.canonical_form):
+            return rec
+    else:
+        opts = dict(compression_method=method, trunc_params=dict(chi_max=100, svd_min=1e-10))
+        if method != 'SVD':  # (converge the environments and the sweeps; a large error is reported, not raised)
+            opts.update(max_sweeps=20, min_sweeps=10, start_env_sites=20, max_trunc_err=None)
+        err = rec.guard(key, UU.apply, psi, opts)
+        if err is None or err.eps > 1e-12:
+            return rec  # (nothing is promised beyond the reported error: e.g. the QR variant cannot open new charge blocks)
+    if rec.ok(key + ':test_sanity', psi.test_sanity) and float(np.max(psi.norm_test())) > 1e-7:
+        rec(key + ':not-canonical', 'norm_test() up to %.3g after apply' % np.max(psi.norm_test()))
+    got = rec.guard(key + ':expectation_value', psi.expectation_value, zname)
+    if got is not None and not close(got, ref, 1e-7):
+        rec(key + ':local-expectation-values', '<%s> per site %r after apply, dense transfer matrix %r' % (zname, np.round(got, 6).tolist(), np.round(ref.real, 6).tolist()))
     return rec
